@@ -86,6 +86,13 @@ def crafted(rng, tier):
                 body[npts_off:npts_off + 4] = struct.pack("<i", big)
                 out.append(("unbacked type %d %s M, %d points" % (code, "with" if with_m else "without", big),
                             refesri.encode_header(code, [0] * 8, 50 + 4 + words) + bytes(body) + bytes(64), None))
+    # honest records, fully backed and valid, made of hundreds of parts: what the reader keeps per part must be
+    # proportional to the part, not to the record
+    for code, nparts, per in ((3, 400, 25), (15, 300, 12), (31, 300, 10), (23, 1500, 4)):
+        rec = F.gen_rec(rng, code, "finite", lens=[per] * nparts)
+        m = {"type": code, "box": [0] * 8, "records": [{"num": 1, "shape": rec}]}
+        out.append(("honest: type %d, %d parts of %d points" % (code, nparts, per), refesri.encode_shp(m), refesri.encode_shx(m)))
+        out.append(("honest: type %d, %d parts of %d points" % (code, nparts, per), refesri.encode_shp(m), None))
     # an index that really holds n entries but announces far more
     pt = {"type": 1, "box": [0] * 8, "records": [{"num": 1, "shape": {"code": 1, "x": 0, "y": 0}}]}
     shp1 = refesri.encode_shp(pt)
